@@ -56,8 +56,10 @@ def run(F, R, tier):
             n = len(A.group_hits.get(gi, []))
             # more sites than were reviewed = a new site rides on an old justification; fewer = code went away or moved
             # (a moved site shows up as an open site of its new function)
-            R.ob("justified-group-count", g["name"], n <= g["count"],
-                 "group justification matches %d sites, reviewed count is %d" % (n, g["count"]), nontrivial=False)
+            R.ob("justified-group-count", g["name"], n <= g["count"] or bool(g.get("open_ended")),
+                 "group justification matches %d sites, reviewed count is %d%s" % (n, g["count"], " (shape justified by an invariant: open-ended)" if g.get("open_ended") else ""), nontrivial=False)
+            if n > g["count"]:
+                R.note("justification group '%s' now matches %d sites, %d were counted at review time" % (g["name"], n, g["count"]))
             if n < g["count"]:
                 R.note("justification group '%s' now matches %d of the %d reviewed sites" % (g["name"], n, g["count"]))
     for k in (A.justified if default_cfg else []):
